@@ -37,7 +37,7 @@ pub const KINDS: &[ErrorKind] = &[
 pub const ONE_SHOT_KINDS: &[ErrorKind] = &[ErrorKind::Interrupted, ErrorKind::WouldBlock, ErrorKind::TimedOut, ErrorKind::Interrupted, ErrorKind::ConnectionReset, ErrorKind::Other, ErrorKind::UnexpectedEof];
 
 pub const SHAPE_LABELS: [&str; sio::ERR_SHAPES as usize] =
-    ["error-shape:message", "error-shape:bare-kind", "error-shape:nested-io-error", "error-shape:source-chain", "error-shape:os-code", "error-shape:boxed-or-empty"];
+    ["error-shape:message", "error-shape:bare-kind", "error-shape:nested-io-error", "error-shape:source-chain", "error-shape:os-code", "error-shape:boxed-or-empty", "error-shape:codec-error-payload", "error-shape:codec-v5-error-payload"];
 
 fn io_kind<F: Family>(e: &F::Error) -> Option<ErrorKind> {
     match F::common(e) {
